@@ -3,9 +3,12 @@
 cd /verif
 git -C /repo apply $(realpath $1)/patch.diff || { echo "patch does not apply to /repo"; exit 2; }
 D=$1; shift
+# the evidence files are rewritten by every run: keep the ones of the clean tree
+rm -rf /tmp/evidence.keep; cp -r /verif/evidence /tmp/evidence.keep
 for id in "$@"; do
   ./run.sh $id quick > /tmp/seed.run.$id.log 2>&1; rc=$?
   echo "$(basename $D) CHECK $id quick exit=$rc $(grep -c '^VIOLATION' /tmp/seed.run.$id.log) violation lines; $(grep -m1 'clause:' /tmp/seed.run.$id.log)"
 done
 git -C /repo checkout -q -- .
+rm -rf /verif/evidence; mv /tmp/evidence.keep /verif/evidence
 rm -rf /verif/replays
